@@ -100,6 +100,11 @@ def tree_input_shapes(rnd, tier, ty):
         gap = rnd.choice([9000, 13000]) if tier == "quick" else 40000
         out.append(("occ_gap%d" % m, Seqn.from_runs([([xa], 8192 * m), ([xb, 8 % (T + 1)], gap // 2), ([xa], 3), ([xc], 5)])))
         out.append(("occ_exact%d" % m, Seqn.from_runs([([xa, xb], 4096 * m), ([xb], 700), ([xa], 4096 * m), ([xc, xb], 2100)])))
+    # the 8192-th occurrence of a bit / quad digit falls in the last data line of a level and a few more follow
+    for (x, y) in ((0, min(T, 1)), (min(T, 5), min(T, 37))):
+        r, k = rnd.choice([100, 300]), rnd.choice([1, 30, 50])
+        out.append(("cross8192_%d_%d" % (x, y), Seqn.from_runs([([x], r), ([y], 8192 + k)])))
+        out.append(("cross8192r_%d_%d" % (x, y), Seqn.from_runs([([y], r), ([x], 8192 + k)])))
     # levels whose length is an exact multiple of the prefetch sampling period, at least two levels
     for n in (2048, 4096) if tier == "quick" else (2048, 4096, 6144, 8192):
         out.append(("pfs_len%d" % n, Seqn.from_values(rand_seq(rnd, n, list(range(min(T, 20) + 1))))))
@@ -178,7 +183,27 @@ def huff_input_shapes(rnd, tier, ty, binary=False, deep=False):
     fw = fw[:len(alph)]
     out.append(("fibonacci%d" % len(alph), Seqn.from_values(weights_seq(rnd, alph, fw))))
     out.append(("two_level", Seqn.from_values(weights_seq(rnd, list(range(9)), [50, 50, 50, 1, 1, 1, 1, 1, 1]))))
+    # code lengths with a gap: dominant symbols one level below the root, all the rare ones three
+    # (quad) / four (binary) levels further down, no code of the lengths in between
+    for ndom in (1, 2):
+        nrare = (48 if ndom == 1 else 32) if not binary else 8
+        if T >= ndom + nrare - 1:
+            ids = rnd.sample(range(0, min(T, 250) + 1), ndom + nrare)
+            w = [40 * nrare] * ndom + [1] * nrare
+            if ndom == 2:
+                w[1] = 30 * nrare
+            out.append(("gap_dom%d" % ndom, Seqn.from_values(weights_seq(rnd, ids, w))))
+    # the 8192-th occurrence of a symbol (bit, quad digit) in the last data line of a level, a few more after it
+    r, k = rnd.choice([100, 300]), rnd.choice([1, 30, 50])
+    out.append(("cross8192", Seqn.from_runs([([min(T, 2)], r), ([min(T, 7)], 8192 + k)])))
     out.append(("holes", Seqn.from_values(weights_seq(rnd, [0, 7, min(T, 200), min(T, 255)], [9, 3, 3, 1]))))
+    if T >= (1 << 21):
+        # symbol values above 2^16: the code of a symbol must not depend on its numeric value
+        hv = [(1 << 18) + 1000, 5, 300, (1 << 17) + 9, 1 << 16, (1 << 20) + 1, 70000, 65535]
+        out.append(("high_values_dom", Seqn.from_values(weights_seq(rnd, hv, [400, 9, 8, 7, 6, 5, 4, 3]))))
+        hv2 = list(hv)
+        rnd.shuffle(hv2)
+        out.append(("high_values_mix", Seqn.from_values(weights_seq(rnd, hv2, [60, 30, 30, 14, 7, 3, 2, 1]))))
     big = min(T, rnd.choice([1000, 5000])) if ty != "u8" else 255
     alph = sorted(set(rnd.randrange(big + 1) for _ in range(60)))
     out.append(("big_values", Seqn.from_values(skewed_seq(rnd, 600, alph, 1.2) + alph)))
@@ -316,6 +341,8 @@ def camp_tree_huff(rnd, tier, kinds=QUAD_HUFF, binary=False):
     b = Beh()
     small_exhaustive(b, rnd, tier, kinds, True)
     types = UTYPES if tier == "thorough" else rnd.sample(UTYPES, 2) + ["u8"]
+    if not any(TY_BITS[t] >= 32 for t in types):
+        types[0] = rnd.choice(["u32", "u64", "usize", "u128"])   # always one carrier with symbol values above 2^16
     paths = rotate(["new", "from_vec", "collect"], rnd)
     kk = rotate(kinds, rnd)
     deep_ty = rnd.choice(types)
@@ -693,8 +720,51 @@ def bvm_history(b, rnd, nops, tier):
     for step in range(nops):
         n = len(bits)
         op = rnd.choice(["push", "push", "append_bits", "append_bits", "extend_with_zeros", "set", "set_bits", "set_bits",
-                         "extend_bools", "extend_positions", "roundtrip", "clone", "collect"])
-        if op == "push":
+                         "extend_bools", "extend_positions", "roundtrip", "clone", "collect", "to_boundary", "to_boundary"])
+        if op == "to_boundary":
+            # one mutator brings the length exactly onto a word / line boundary, another one continues from there
+            B = rnd.choice([64, 512, 512])
+            need = (B - n % B) % B or B
+            how = rnd.choice(["append_bits", "append_bits", "push", "extend_with_zeros", "extend_bools"])
+            if how == "append_bits":
+                while need > 0:
+                    L = min(64, need) if rnd.random() < 0.7 else min(need, rnd.choice([1, 13, 64]))
+                    w = word_of(rnd, L)
+                    b.mut(o, "append_bits", a=[L], w=w)
+                    bits += [1 if i in set(w) else 0 for i in range(L)]
+                    need -= L
+            elif how == "push":
+                for _ in range(need):
+                    v = rnd.randrange(2)
+                    b.mut(o, "push", a=[v])
+                    bits.append(v)
+            elif how == "extend_with_zeros":
+                b.mut(o, "extend_with_zeros", a=[need])
+                bits += [0] * need
+            else:
+                e = rand_seq(rnd, need, [0, 1])
+                b.mut(o, "extend_bools", bits=e)
+                bits += e
+            nxt = rnd.choice(["push", "append_bits", "extend_bools", "extend_positions", "extend_with_zeros"])
+            if nxt == "push":
+                b.mut(o, "push", a=[1])
+                bits.append(1)
+            elif nxt == "append_bits":
+                L = rnd.choice([1, 3, 64])
+                w = word_of(rnd, L, "ones") if L == 1 else word_of(rnd, L)
+                b.mut(o, "append_bits", a=[L], w=w)
+                bits += [1 if i in set(w) else 0 for i in range(L)]
+            elif nxt == "extend_bools":
+                b.mut(o, "extend_bools", bits=[1, 0, 1])
+                bits += [1, 0, 1]
+            elif nxt == "extend_positions":
+                ps = [len(bits), len(bits) + 2]
+                b.mut(o, "extend_positions", pos=ps)
+                bits += [1, 0, 1]
+            else:
+                b.mut(o, "extend_with_zeros", a=[1])
+                bits += [0]
+        elif op == "push":
             for _ in range(rnd.choice([1, 1, 3, 70])):
                 v = rnd.randrange(2)
                 b.mut(o, "push", a=[v])
@@ -1518,6 +1588,9 @@ def space_tree_inputs(rnd, tier, ty, huff):
         mid = list(hi)
         rnd.shuffle(mid)
         out.append(("highsyms_mix", runs_profile(rnd, mid, w)))
+        # one dominant symbol with a large value, a few rare ones with small and large values
+        rare = [5, 300, 70000, (1 << 17) + 9, (1 << 20) + 1, 1 << 16]
+        out.append(("highsyms_dom", runs_profile(rnd, [(1 << 18) + 1000] + rare, [180000] + [3000 + 500 * i for i in range(len(rare))])))
     for n in ([1000, 20000] if tier == "quick" else [10, 1000, 20000, 100000]):
         for mx in rnd.sample([1, 3, 4, 15, 16, 255, 256, 1000, 65535], 3 if tier == "quick" else 6):
             mx = min(mx, T)
